@@ -285,10 +285,18 @@ func vC04Copy[T vScalar]() {
 	vReach("C04.Copy")
 	srcWant, srcShape := want, vCopyInts(shape)
 	kfColX := vCfgStr("op") == "apitranspose" && src.DataOrder().IsColMajor()
+	kfID := "KF-C03-colmajorX"
+	// known finding (thorough tier): transposing a STEP-sliced (1,n) row-vector view forces the strides to (1,1) (AP.T's
+	// vector branch; pinned by TestDense_Transpose), so the transposed view / copy reads neighbouring storage cells
+	op0 := vCfgStr("op")
+	cs := vCfgInts("shape")
+	if vCfgStr("layout") == "SS" && len(cs) == 2 && (cs[0] == 1 || cs[1] == 1) && (vCfgInt("lazyT") == 1 || op0 == "safet" || op0 == "apitranspose") {
+		kfColX, kfID = true, "KF-C03-stridedvecT"
+	}
 	var cp *Dense
 	switch vCfgStr("op") {
 	case "tomat64":
-		vC04ToMat[T](src, want, shape)
+		vC04ToMat[T](src, want, shape, kfID, kfColX && kfID == "KF-C03-stridedvecT")
 		return
 	case "clone":
 		cp = src.Clone().(*Dense)
@@ -324,7 +332,7 @@ func vC04Copy[T vScalar]() {
 			return
 		}
 		// the copy is the reversed-axes transpose; the source keeps its content
-		vCheckAll(src, want, shape, "source-unchanged", "", false)
+		vCheckAll(src, want, shape, "source-unchanged", kfID, kfColX && kfID == "KF-C03-stridedvecT")
 		ns := vReverseInts(shape)
 		nw := make([]T, len(want))
 		vForCoords(ns, func(c []int) { nw[vRowRank(ns, c)] = want[vRowRank(shape, vReverseInts(c))] })
@@ -342,7 +350,7 @@ func vC04Copy[T vScalar]() {
 		}
 	}
 	vAssert(cp.Dtype() == src.Dtype(), "dtype")
-	vCheckAll(cp, want, shape, "equal", "KF-C03-colmajorX", kfColX)
+	vCheckAll(cp, want, shape, "equal", kfID, kfColX)
 	vAssert(!vSameBacking(cp.Data(), src.Data()), "no-shared-backing")
 	// independence: a symbolic write through the copy leaves the source unchanged, and vice versa
 	if len(shape) == 0 {
@@ -355,7 +363,7 @@ func vC04Copy[T vScalar]() {
 	}
 	v := vNondet[T]("v")
 	if cp.SetAt(v, c...) == nil {
-		vCheckAll(src, srcWant, srcShape, "independent-src", "", false)
+		vCheckAll(src, srcWant, srcShape, "independent-src", kfID, kfColX && kfID == "KF-C03-stridedvecT")
 	}
 }
 
@@ -386,7 +394,7 @@ func vElemF64(x interface{}) (float64, bool) {
 
 // vC04ToMat: ToMat64 (a copying conversion in safe mode) delivers the logical matrix, converted element by element, and
 // shares no storage with the tensor.
-func vC04ToMat[T vScalar](src *Dense, want []T, shape []int) {
+func vC04ToMat[T vScalar](src *Dense, want []T, shape []int, kf string, region bool) {
 	m, err := ToMat64(src)
 	if len(shape) != 2 {
 		vAssert(err != nil, "tomat-refuses-non-matrix")
@@ -407,9 +415,9 @@ func vC04ToMat[T vScalar](src *Dense, want []T, shape []int) {
 	for i := 0; i < r; i++ {
 		for j := 0; j < c; j++ {
 			w, _ := vElemF64(want[i*c+j])
-			vAssert(vSameBits(m.At(i, j), w), "tomat-equal")
+			vAssertKF(vSameBits(m.At(i, j), w), "tomat-equal", kf, region)
 		}
 	}
 	vAssert(!vSameBacking(m.RawMatrix().Data, src.Data()), "no-shared-backing")
-	vCheckAll(src, want, shape, "source-unchanged", "", false)
+	vCheckAll(src, want, shape, "source-unchanged", kf, region)
 }
